@@ -26,7 +26,7 @@ Your task: make a realistic change to the library's NON-test source files - the 
  1. the code still compiles and `go test -vet=off -count=1 ./...` (run in {d}) still passes completely, and
  2. the breakage needs something specific in order to show: a particular interleaving of goroutines, a fault at a particular point, a multi-step sequence of operations or history, an unusual input shape or size, a rarely used option or entry point, or two cooperating sites that each look fine alone. It must NOT be something that ordinary use would expose at once, and it should not be findable by trying a handful of short obvious inputs.
 
-Also write a demonstration: one NEW test file named seed_demo_test.go in the directory of the package it tests (untracked; do not edit existing test files) with a test function whose name starts with TestSeedDemo that FAILS with your change and PASSES on the unchanged code. Verify both directions yourself (`git stash` removes your source change but keeps the untracked demo; `git stash pop` restores it). If the demonstration needs the race detector, say so in the report and write the test so that `go test -race -run TestSeedDemo` shows it (and mention the word race in the report).
+Also write a demonstration: one NEW test file named seed_demo_test.go in the directory of the package it tests (untracked; do not edit existing test files) with a test function whose name starts with TestSeedDemo that FAILS with your change and PASSES on the unchanged code. Verify both directions yourself (do NOT use `git stash` - the stash is shared with other worktrees; use `git diff > /tmp/seed/<name>.patch; git apply -R /tmp/seed/<name>.patch; ...; git apply /tmp/seed/<name>.patch` with a file name of your own). If the demonstration needs the race detector, say so in the report and write the test so that `go test -race -run TestSeedDemo` shows it (and mention the word race in the report).
 
 Do not commit anything. Leave the source change as uncommitted modifications to tracked files and the demo as an untracked file. Write {d}/SEED_REPORT.md (untracked) with: the change; why it looks innocent; exactly what is needed for the breakage to manifest; what you ran to verify (suite passes with the change; demo fails with it and passes without it).
 
